@@ -1,7 +1,7 @@
 """C01 -- CFF outlines and advances equal the source with components resolved."""
 import random
 
-from .. import compile_exec, gen
+from .. import absfont, compile_exec, gen
 
 PROPERTY = "C01"
 TRACE_MODULE = "PipelineTrace"
@@ -9,7 +9,10 @@ TRACE_CFG = "PipelineTrace.cfg"
 RULE = ("random exact-domain UFOs (3-7 glyphs, nested / mirrored / sheared / scaled components, line + cubic + quadratic "
         "segments, k/4 coordinates and advances with .5 ties of both signs) x roundTolerance {None, 0, 0.25, 0.5} x cffVersion "
         "{1, 2} x {defcon, ufoLib2}; compiled with compileOTF, saved, reloaded, drawn with RecordingPen; non-trivial = the "
-        "font has at least one composite glyph; distinct by source digest + options")
+        "font has at least one composite glyph; distinct by source digest + options; plus (one case in five) families of "
+        "2-3 compatible masters compiled with compileInterpolatableOTFsFromDS in which a composite glyph (incl. mirrored and "
+        "nested components) is drawn as plain contours in some masters and composed in the others -- every master is judged "
+        "against its own source")
 ASSUMPTIONS = ["fontTools' CFF charstring decoder and RecordingPen are the observation channel (trusted)",
                "exact dyadic input domain; quadratic->cubic control points (thirds) are matched up to rounding ties"]
 
@@ -25,6 +28,12 @@ def cases(tier, seed):
     rng = random.Random(seed * 15485863 + 1)
     out = []
     for k in range(n):
+        if k % 5 == 4:
+            fam = _interp_family(rng)
+            if fam:
+                out.append({"cid": f"c01-{seed}-{k}", "lib": rng.choice(["ufoLib2", "defcon"]), "interp": True, "masters": fam,
+                            "kwargs": {"optimizeCFF": rng.choice([0, 1]), **({"roundTolerance": rng.choice([0, 0.5])} if rng.random() < 0.3 else {})}})
+                continue
         tol = rng.choice([None, None, 0, 0.25, 0.5])
         kinds = None if tol in (None, 0.5) else ["line", "cubic", "mixed"]
         glyphs = gen.glyphset(rng, kinds=kinds, unicodes=True)
@@ -37,7 +46,32 @@ def cases(tier, seed):
     return out
 
 
+def _interp_family(rng):
+    """2-3 compatible masters; every composite glyph is, independently per master, either composed or drawn as the
+    equivalent contours (at least one master of each form when the family has a composite)."""
+    base = gen.glyphset(rng, nmin=3, nmax=6, max_depth=2, kinds=["line", "cubic", "mixed"], unicodes=True, mixed=False)
+    nm = rng.choice([2, 3])
+    masters = [base] + [gen.perturb_master(rng, base, change_2x2=0.0) for _ in range(nm - 1)]
+    comps = [n for n, g in base.items() if g["comps"]]
+    if not comps:
+        return None
+    out = [dict(m) for m in masters]
+    for name in comps:
+        forms = [rng.random() < 0.5 for _ in range(nm)]
+        if all(forms) or not any(forms):
+            forms[rng.randrange(nm)] = not forms[0]
+        for k in range(nm):
+            if forms[k]:
+                try:
+                    out[k][name] = compile_exec.resolved_form(masters[k], name)
+                except absfont.Inexact:  # inexact after resolution: keep the composite
+                    pass
+    return out
+
+
 def execute(case):
+    if case.get("interp"):
+        return compile_exec.interp_cff_compile(case)
     return [compile_exec.static_compile(case)]
 
 
